@@ -121,6 +121,69 @@ def check(ctx):
     ctx.ob('R4.3-odeint-call', '_helper_simulate', not problems, where,
            'odeint(rhs_global, copy of the initial state, caller time points); result rows are labelled with the same time points; NaN rows on failure',
            '; '.join(problems))
+    # "to within the integrator's tolerance": the tolerances and the step limit in force at the odeint call are the caller's keyword where
+    # one is given and the simulator's own setting otherwise; what the helper does not consume is forwarded.  The option handling is
+    # evaluated (templates.StrExec) for every subset of {atol, rtol, hmax} plus one foreign keyword; values are named holes.
+    from ..templates import StrExec, Hole, UNKNOWN
+    import itertools
+    kwarg = f.args.kwarg.arg if f.args.kwarg is not None else None
+    problems = []
+    n_sc = 0
+    if kwarg is None:
+        problems.append('_helper_simulate takes no keyword options')
+    else:
+        for r_ in range(4):
+            for given in itertools.combinations(('atol', 'rtol', 'hmax'), r_):
+                kws = {g_: Hole('KW_' + g_) for g_ in given}
+                kws['mxordn'] = Hole('KW_mxordn')
+                seen = []
+
+                def hook(n, ex):
+                    if src(n.func).split('.')[-1] == 'odeint':
+                        d = {}
+                        for kw_ in n.keywords:
+                            v_ = ex.ev(kw_.value)
+                            if kw_.arg is None:
+                                if isinstance(v_, dict):
+                                    d.update(v_)
+                                else:
+                                    d['**'] = v_
+                            else:
+                                d[kw_.arg] = v_
+                        seen.append(d)
+                        return [UNKNOWN, UNKNOWN]
+                    return None
+                env = {kwarg: dict(kws), 'self.atol': Hole('SELF_atol'), 'self.rtol': Hole('SELF_rtol'), 'self.hmax': Hole('SELF_hmax'),
+                       'self.mxstep': 500000}
+                ex = StrExec(env, tracked=set(), call_hook=hook)
+                ex.run(f.body)
+                n_sc += 1
+                if not seen:
+                    problems.append('keywords %s: no odeint call reached (%s)' % (sorted(given), ex.aborted))
+                    continue
+                d = seen[0]
+                for o_ in ('atol', 'rtol', 'hmax'):
+                    want = 'KW_' + o_ if o_ in given else 'SELF_' + o_
+                    if d.get(o_, 'odeint default') != want:
+                        problems.append('with keywords %s odeint runs with %s=%s, expected %s' % (sorted(given) or 'none', o_, d.get(o_, 'its default'),
+                                                                                                 "the caller's keyword" if o_ in given else "the simulator's own " + o_))
+                if d.get('mxordn') != 'KW_mxordn':
+                    problems.append('a keyword the helper does not consume is not forwarded to odeint')
+    ctx.ob('R4.3-odeint-call', '_helper_simulate/options', not problems, where,
+           "atol, rtol and hmax at the odeint call are the caller's keywords where given, else the simulator's settings; other keywords are "
+           'forwarded (%d keyword subsets evaluated)' % n_sc, '; '.join(problems[:3]))
+    for cls_, m_, pairs in (('DeterministicSimulator', 'set_tolerance', (('self.atol', 0), ('self.rtol', 1))),):
+        dc_, g_ = ctx.prog.resolve_method(cls_, m_)
+        if g_ is None:
+            raise AnalysisError('anchor vanished: %s.%s' % (cls_, m_))
+        ps_ = [a.arg for a in g_.args.args[1:]]
+        st_ = {k(src(x.targets[0])): k(src(x.value)) for x in g_.body if isinstance(x, ast.Assign)}
+        ok_ = all(st_.get(t_) == ps_[i_] for t_, i_ in pairs) and len(ps_) == 2
+        ctx.ob('R4.3-odeint-call', '%s.%s' % (cls_, m_), ok_, ctx.loc('simulator.pxd' if 'simulator.pxd' in ctx.prog.mods else 'simulator', g_),
+               'set_tolerance(atol, rtol) stores the absolute tolerance as atol and the relative one as rtol', str(st_))
+    w_ = ctx.fn('simulator:DeterministicSimulator.py_set_tolerance')
+    ok_, det_ = util.delegation(w_, 'set_tolerance')
+    ctx.ob('R4.3-odeint-call', 'DeterministicSimulator.py_set_tolerance', ok_, ctx.loc('simulator', w_), 'py_set_tolerance forwards (atol, rtol) in that order', det_)
     # wrappers
     for cls, m_, want in (('DeterministicSimulator', 'simulate', 'returnself._helper_simulate(sim,timepoints)'),
                           ('DeterministicSimulator', 'py_simulate', 'returnself._helper_simulate(sim,timepoints,**keywords)')):
